@@ -9,7 +9,7 @@
 #ifndef NDEBUG
 #define NDEBUG
 #endif
-#include "fwddoms.inc"
+#include "fwddoms.hpp"
 #include <crab/domains/intervals.hpp>
 #include <crab/domains/dis_intervals.hpp>
 #include <crab/domains/combined_domains.hpp>
